@@ -97,15 +97,21 @@ func (fs *ReadOnlyFS) copyFile(name string, f hackpadfs.File, info hackpadfs.Fil
 	if err != nil {
 		return err
 	}
-	defer func() { _ = destFile.Close() }()
 
 	destFileWriter, ok := destFile.(io.Writer)
 	if !ok {
-		return &hackpadfs.PathError{Op: "open", Path: name, Err: hackpadfs.ErrPermission}
+		err = hackpadfs.ErrPermission
+	} else {
+		buf := make([]byte, 512)
+		_, err = io.CopyBuffer(destFileWriter, f, buf)
 	}
-	buf := make([]byte, 512)
-	_, err = io.CopyBuffer(destFileWriter, f, buf)
+	closeErr := destFile.Close()
+	if err == nil {
+		err = closeErr
+	}
 	if err != nil {
+		// do not leave a partial file in the cache, a later Open would serve it as if it were complete
+		_ = hackpadfs.Remove(fs.cacheFS, name)
 		return &hackpadfs.PathError{Op: "open", Path: name, Err: err}
 	}
 	return nil
